@@ -22,6 +22,7 @@ TRUSTED_BASE = [
 ASSUMPTIONS = [
     "apply step (libcst): every statement and import name of the source is still in the applied module, in order "
     "(embedsb src applied), checked per case",
+    "apply step (libcst): it adds imports at module level only (nested_ok), checked per case",
     "apply step (libcst): when it changes the module it puts `from __future__ import annotations` first (after a docstring)",
     "MonkeyType's stub generator: generated classes derive from mypy_extensions.TypedDict or from each other, and libcst "
     "imports that base at module level (needed_okb), checked per case",
@@ -47,10 +48,10 @@ DIRECTED = [
     ([("import shapes", "f")], ["area_of"], 0),
     ([("from shapes import Circle as Ci, Square", "t")], ["area_of"], 0),
     ([("import os, shapes", "t")], ["area_of"], 0),
-    ([("from shapes import Circle", "t"), ("from other import Circle", "f")], ["area_of"], 0),   # kf_shadow
-    ([("from shapes import Circle", "c")], ["area_of"], 0),                                       # kf_apply_extra
+    ([("from shapes import Circle", "t"), ("from other import Circle", "f")], ["area_of"], 0),
+    ([("from shapes import Circle", "c")], ["area_of"], 0),
     ([("from shapes import Circle", "f")], ["area_of"], 0),
-    ([("from other import Circle", "t")], ["area_of"], 0),                                        # libcst qualifies
+    ([("from other import Circle", "t")], ["area_of"], 0),                          # libcst qualifies: kf_apply_extra
     ([("from shapes import *", "t")], ["area_of", "pick"], 0),
     ([("from typing import List", "t")], ["pick", "rows"], 5),
     ([("from typing import *", "t")], ["pick"], 0),
@@ -63,6 +64,12 @@ DIRECTED = [
     ([], ["payload"], 0),
     ([("import typings", "t")], ["helper", "compat"], 0),
     ([("from typing_helpers import Helper as H", "t")], ["helper", "total"], 5),
+    # the stub's item is in the source only under TYPE_CHECKING / in a function while the name is bound to something else
+    # at run time (before C16-4 the new module-level import silently rebound the name)
+    ([("from other import Circle", "t"), ("from shapes import Circle", "c")], ["area_of"], 0),
+    ([("from other import Circle", "t"), ("from shapes import Circle", "f")], ["area_of"], 0),
+    ([("from shapes import Circle", "t"), ("from other import Circle", "m")], ["area_of"], 0),   # kf_shadow (module level)
+    ([("from shapes import *", "t"), ("from shapes import Circle", "m")], ["area_of"], 0),       # kf_shadow (star quirk)
 ]
 
 FX_MODULES = ("shapes", "geo.pts", "other", "typings", "typing_helpers", "mypy_extensions_compat")
@@ -187,11 +194,12 @@ def evaluate(ctx, cases, fx_root):
 
 CLAUSE_NAMES = ["head_is_future_import", "new_items_under_TYPE_CHECKING", "no_new_runtime_import", "source_imports_in_place",
                 "runtime_names_bound", "generated_class_bases_bound", "model_eq_impl", "libcst_assumptions",
-                "kf_shadow", "kf_apply_extra", "TYPE_CHECKING_bound_before_block"]
+                "kf_shadow", "kf_apply_extra", "TYPE_CHECKING_bound_before_block",
+                "no_second_copy_under_TYPE_CHECKING"]
 
 
 def describe(c, code, cl, beh):
-    failing = [n for k, (n, v) in enumerate(zip(CLAUSE_NAMES, cl or [])) if not v and (k < 6 or k == 10)]
+    failing = [n for k, (n, v) in enumerate(zip(CLAUSE_NAMES, cl or [])) if not v and (k < 6 or k >= 10)]
     bits = []
     if failing:
         bits.append("clauses false: " + ", ".join(failing))
@@ -234,6 +242,15 @@ def run(ctx):
         from concurrent.futures import ProcessPoolExecutor
         with ProcessPoolExecutor(max_workers=common.NCPU) as ex:
             cases = list(ex.map(_build_case_star, jobs, chunksize=4))
+            # re-application stream: the result of a first application (which now holds `if TYPE_CHECKING:` blocks and
+            # the __future__ import) is the source of a second application of the same stub, overwrite on and off
+            again = []
+            for c in cases:
+                if c["output"] is not None and (c["i"] < len(DIRECTED) or c["i"] % 4 == 0):
+                    again.append((n + len(again), c["output"], c["stub"], len(again) % 2 == 0, fx_root,
+                                  dict(c["meta"], reapplied=c["i"])))
+            dist["reapplied"] = len(again)
+            cases += list(ex.map(_build_case_star, again, chunksize=4))
         codes, clauses, beh = evaluate(ctx, cases, fx_root)
     finally:
         _unload_fixture(fx_root)
@@ -277,15 +294,16 @@ def run(ctx):
     failures.sort(key=lambda f: (1 if f.get("finding") else 0))
     return {
         "evaluations": len(cases), "distinct_nontrivial": len(nontrivial),
-        "rule": "21 directed witnesses (the design-phase defects and their neighbours), then random sources: optional docstring / "
+        "rule": "25 directed witnesses (the design-phase defects and their neighbours), then random sources: optional docstring / "
                 "__future__ import, 0-5 import statements from a 32-entry pool (import a.b, aliases, star, typing, "
                 "mypy_extensions, clashing names) placed at the top, after a statement, in a function, under an existing "
                 "TYPE_CHECKING block or in try/except, 1-3 functions whose stub is rendered by MonkeyType's own "
                 "build_module_stubs_from_traces (k in {0,5}); every case goes through the real apply step, "
                 "get_newly_imported_items and apply_stub_using_libcst(..., True); verdict in Coq; then source and result are "
-                "imported in fresh interpreters and run() compared. non-trivial = the stub brings a newly imported item and "
+                "imported in fresh interpreters and run() compared; the results of all directed and a quarter of the random "
+                "cases are then the source of a second application of the same stub (re-application stream). non-trivial = the stub brings a newly imported item and "
                 "the source has an import; distinct by hash of the reified case",
-        "samples": [{"source": c["source"], "stub": c["stub"], "output": c["output"]} for c in cases[21:24]],
+        "samples": [{"source": c["source"], "stub": c["stub"], "output": c["output"]} for c in cases[25:28]],
         "distribution": dist, "failures": failures, "mismatches": mismatches,
         "relation": "module_eqb (confine stub src applied) out  /\\  set_eqb (newly stub src) impl_newly",
     }
